@@ -365,6 +365,13 @@ Definition run_fields6 (f : list bytes) : bytes * bool :=
     (match generate_ocra (unhx (a 1%nat)) cfg (parse_input (a 3%nat)) with
      | Ok code => r_gv code (validate_ocra (unhx (a 1%nat)) code cfg (parse_input (a 4%nat)))
      | Err e => r_err e | Panic => s2b "panic" end, true)
+  else if bytes_eqb op (s2b "gocra_nil") then      (* a nil Suite: ErrInvalidRawSuite once the secret is decoded *)
+    (r_bytes (obind (decode_secret (unhx (a 1%nat))) (fun _ => Err (ESent ErrInvalidRawSuite))), true)
+  else if bytes_eqb op (s2b "vocra_nil") then
+    (r_verdict (match decode_secret (unhx (a 1%nat)) with
+                | Ok _ => (Ok (false, Some (ESent ErrInvalidRawSuite)), O)
+                | Err e => (Ok (false, Some e), O)
+                | Panic => (Panic, O) end), true)
   else if bytes_eqb op (s2b "gocra_mut") then
     (r_bytes (generate_ocra (unhx (a 2%nat)) (parse_suite (a 3%nat)) (parse_input (a 4%nat))), true)
   else if bytes_eqb op (s2b "vocra_mut") then
@@ -437,7 +444,7 @@ Definition run_fields2 (f : list bytes) : bytes * bool :=
   if bytes_eqb op (s2b "to8") then (s2b "ok:" ++ hex_of (to8 (parse_N (a 1%nat))), true)
   else if bytes_eqb op (s2b "pdec8a") || bytes_eqb op (s2b "pdec8b") then (r_bytes (parse_decimal_be8 (unhx (a 1%nat))), true)
   else if bytes_eqb op (s2b "lpad") then
-    let w := parse_Z (a 2%nat) in (r_bytes (left_pad_hex (unhx (a 1%nat)) w), (0 <=? w)%Z && (w <=? 1048576)%Z)
+    let w := parse_Z (a 2%nat) in (r_bytes (left_pad_hex (unhx (a 1%nat)) w), (w <=? 1048576)%Z)
   else if bytes_eqb op (s2b "mhex") then
     let w := parse_Z (a 2%nat) in (r_bytes (must_hex_pad_left (unhx (a 1%nat)) w), (-1000 <=? w)%Z && (w <=? 524288)%Z)
   else if bytes_eqb op (s2b "phexts") then (r_bytes (parse_hex_timestamp (unhx (a 1%nat))), true)
